@@ -44,7 +44,9 @@ def run(ctx, b, broken):
     n = 300 if ctx.tier == "quick" else 4000
     leaky_pairs = [("typedef int T; void f(void){ { {", "T * x;"), ("typedef int T;", "int T; void g(void){ T = 1; }"),
                    ("int U; void h(void){", "typedef int U; U y;"), ("# 77 \"other.c\"\nint a; @", "int b; $%"),
-                   ("#pragma\nint a;\n#pragma x", "int c;"), ("typedef char T; T a; }", "void T(void);"), ("void f(){ typedef int T; {", "T(x);")]
+                   ("#pragma\nint a;\n#pragma x", "int c;"), ("typedef char T; T a; }", "void T(void);"), ("void f(){ typedef int T; {", "T(x);"),
+                   ("int x\n#pragma pack(1)\n", "int y;"), ("int x\n#pragma pack(1)", "#pragma z\nint y;"), ("void f(void){ x = \n#pragma omp for\n", "int z;"),
+                   ("typedef unsigned long word_f }", "enum { word_f };")]
     for _ in range(n):
         p = c_parser.CParser()
         hist = []
@@ -151,4 +153,25 @@ def run(ctx, b, broken):
             gen = c_generator.CGenerator()
         elif t1 != c_generator.CGenerator().visit(a):
             su.violation(text, "a reused CGenerator produced different text than a fresh one")
+        else:
+            # the same tree again after an in-place edit: the reused generator must print what a fresh one prints now
+            from pycparser import c_ast
+            edited = False
+            for e in a.ext:
+                if isinstance(e, c_ast.FuncDef) and isinstance(e.body, c_ast.Compound):
+                    e.body.block_items = (e.body.block_items or []) + [c_ast.Return(c_ast.Constant("int", "42"))]
+                    edited = True
+                    break
+                if isinstance(e, c_ast.Decl) and isinstance(e.type, c_ast.TypeDecl) and e.name:
+                    e.name = e.type.declname = e.name + "_renamed"
+                    edited = True
+                    break
+            if edited:
+                try:
+                    t2, t3 = gen.visit(a), c_generator.CGenerator().visit(a)
+                except Exception:
+                    continue
+                ctx.count("suite:generator-reuse-after-edit")
+                if t2 != t3:
+                    su.violation(text, "a reused CGenerator visiting the same tree again after an in-place edit printed stale text (a fresh generator prints the edited tree)")
     su.finish()
